@@ -94,6 +94,12 @@ CheckWindow(e) ==
   /\ Judge("C09", "TimelyReplyListed", e.disturbed \/ (e.listed = e.expected /\ ~e.failed), <<e.what, e.listed, e.failed>>, e.expected)
   /\ Judge("C09", "NoEarlyGiveUp", e.elapsed_ms >= e.T_ms - 2, <<e.elapsed_ms, e.T_ms>>, "not before T")
 
+\* C06 "from the configured bind address", seen from the controller's side of the socket (discovery, broadcast-to, connected
+\* UDP, TCP; a bind address the kernel would not have picked by itself; ephemeral and fixed port)
+CheckSource(e) ==
+  Judge("C06", "SourceIsBindAddress", e.asked /\ e.src.ip = e.bind.ip /\ (e.bind.port = 0 \/ e.src.port = e.bind.port) /\ e.nreq = 1,
+        <<e.path, e.src, e.nreq>>, e.bind)
+
 \* C08 at the schedule "A's transport has returned, B runs to completion, only then does A look at its bytes"
 \* (Transport!Finish(a) ... Return(a)): each call's result is the interpretation of the reply to its OWN request
 CheckGate(e) ==
@@ -113,6 +119,9 @@ CheckKept(e) ==
   \* C01 at the socket, where a driver wrapper cannot look: "exactly one 64-byte request reaches the network" - also when
   \* datagrams that are not the call's reply arrive first
   /\ Judge("C01", "ExactlyOneRequest", e.nreq = 1, <<e.kept.path, e.nreq>>, 1)
+  \* ... and what arrived at the controller's socket is the protocol encoding of the call (whatever a driver does to the
+  \* bytes between taking them and writing them is invisible at the driver interface)
+  /\ Judge("C01", "WireExact", e.sent = Sent(e.op, e.a), <<e.kept.path, e.sent>>, Sent(e.op, e.a))
   /\ Judge("C17", "KeptResultUnaffected", e.ret_later = e.ret, <<e.kept, e.ret_later>>, e.ret)
   /\ Judge("C03", "OnlyOwnDatagram", e.ret_later.t # "panic" /\ own(e.ret_later), <<e.kept, e.ret_later>>, e.ret)
   /\ Judge("C02", "ResultOK", e.ret.t # "panic" /\ own(e.ret), <<e.kept, e.ret>>, "the interpretation of the delivered reply")
@@ -123,6 +132,7 @@ Check(e) == IF e.op = "W26Intervals" THEN CheckW26(e)
             ELSE IF e.op = "Event" THEN CheckEvent(e)
             ELSE IF e.op = "Quiesce" THEN CheckQuiesce(e)
             ELSE IF e.op = "Window" THEN CheckWindow(e)
+            ELSE IF e.op = "Source" THEN CheckSource(e)
             ELSE IF Has(e, "gate") THEN CheckGate(e)
             ELSE IF Has(e, "kept") THEN CheckKept(e)
             ELSE IF Has(e.a, "extreme")
